@@ -288,13 +288,37 @@ func (x *idx) merge(s string) string {
 func genRecords(r *rand.Rand, n, nref int, max int, tile int) []rec {
 	var out []rec
 	off := bgzf.Offset{File: int64(r.Intn(1000)), Block: uint16(r.Intn(60000))}
+	// chunk layout of the scenario: contiguous (what a reader reports), overlapping windows, or
+	// every chunk beginning at the start of the record's block - all monotone in Begin and End
+	layout := r.Intn(4)
+	blockStart := off
+	blockStart.Block = 0
+	var prevB bgzf.Offset
 	next := func() (bgzf.Offset, bgzf.Offset) {
 		b := off
+		switch layout {
+		case 1: // sliding windows: begin inside the previous chunk
+			if prevB.File == off.File && off.Block > prevB.Block+1 {
+				b = bgzf.Offset{File: off.File, Block: prevB.Block + uint16(1+r.Intn(int(off.Block-prevB.Block)))}
+			}
+		case 2: // begin at the start of the block that holds the record
+			if blockStart.File != off.File {
+				blockStart = bgzf.Offset{File: off.File}
+			}
+			b = blockStart
+		}
+		defer func() { prevB = b }()
+		e := off // ends never go back: the end of this record lies beyond the previous record's end
 		if r.Intn(8) == 0 { // a gap between records
+			b = off
 			b.File += int64(1 + r.Intn(70000))
 			b.Block = uint16(r.Intn(65000))
+			e = b
+			if layout == 2 {
+				b.Block = 0
+				blockStart = b
+			}
 		}
-		e := b
 		if r.Intn(4) == 0 {
 			e.File += int64(1 + r.Intn(70000))
 			e.Block = uint16(r.Intn(65000))
@@ -355,11 +379,11 @@ func genRecords(r *rand.Rand, n, nref int, max int, tile int) []rec {
 		if ln < 0 {
 			ln = 0
 		}
-		if r.Intn(6) == 0 {
-			// end exactly on an edge
+		if r.Intn(4) == 0 {
+			// end exactly on an edge, or with the last base / the last two bases on it
 			for _, e := range edges {
 				if e > pos {
-					ln = e - pos
+					ln = e - pos + []int{0, 0, 1, 2}[r.Intn(4)]
 					break
 				}
 			}
@@ -373,6 +397,13 @@ func genRecords(r *rand.Rand, n, nref int, max int, tile int) []rec {
 	for i := 0; i < r.Intn(4); i++ {
 		cb, ce := next()
 		out = append(out, rec{ref: -1, beg: -1, end: 0, cb: cb, ce: ce, placed: false, mapped: false})
+	}
+	// the layouts the property quantifies over are monotone: neither begins nor ends go back
+	less := func(a, b bgzf.Offset) bool { return a.File < b.File || (a.File == b.File && a.Block < b.Block) }
+	for i := 1; i < len(out); i++ {
+		if less(out[i].cb, out[i-1].cb) || less(out[i].ce, out[i-1].ce) || less(out[i].ce, out[i].cb) {
+			panic(fmt.Sprintf("generator produced a chunk layout that is not monotone at record %d (layout %d)", i, layout))
+		}
 	}
 	return out
 }
